@@ -18,7 +18,7 @@ func init() {
 		Explanation: "R1: every index / slice expression on a slice in builtInFunctions is entailed in-range by the guards cutting it (linear entailment over edge facts, validator summaries, call-site preconditions, make lengths, loop induction). " +
 			"R2: a 64-bit number decoded from the arguments is bounded by a length or constant before arithmetic, signed conversion, indexing, slicing or allocation. R3: every dereference of an optional message field (TokenMetaData) is cut by its " +
 			"presence test (storage-derived entries) or rests on A-protomsg with the emitter-side obligation checked. R4: every method call on an account parameter is cut by its presence test or covered by A-presence. R5: entry points return " +
-			"(output, nil) or (nil, error) and only ever store ReturnCode Ok. R6 (shared with C03-R6): the only writer of caller-chosen bytes cannot reach a protocol key, which is the premise under which stored entries have a non-nil Value and metadata exactly for NFTs. Does NOT decide: panics inside dependencies or math/big, memory use other than make sizes.",
+			"(output, nil) or (nil, error) and only ever store ReturnCode Ok. R6 (shared with C03-R6): the only writer of caller-chosen bytes cannot reach a protocol key, which is the premise under which stored entries have a non-nil Value and metadata exactly for NFTs. R7: a list made with make([]*T, n) and filled slot by slot in a loop has no slot skipped. Does NOT decide: panics inside dependencies or math/big, memory use other than make sizes.",
 		Trusted: []string{"A-len", "A-argbytes", "A-presence", "A-protomsg (destination-side payloads were produced by the sender-side emitter; its guarantee is checked as an obligation)", "A-input (CallValue non-nil)"},
 		Rules:   []func(*Ctx){c11r1, c11r2},
 	})
